@@ -439,6 +439,7 @@ func (ss *Package) messageProperties(parent RootSchema, src protoreflect.Message
 				Parent:      parent,
 				ProtoField:  []protoreflect.FieldNumber{field.Number()},
 				JSONName:    string(field.JSONName()),
+				Required:    ext.validate.GetRequired(),
 				Description: commentDescription(field),
 				Schema:      arrayField,
 			}
@@ -493,6 +494,7 @@ func (ss *Package) messageProperties(parent RootSchema, src protoreflect.Message
 			prop := &ObjectProperty{
 				ProtoField:  []protoreflect.FieldNumber{field.Number()},
 				JSONName:    string(field.JSONName()),
+				Required:    ext.validate.GetRequired(),
 				Description: commentDescription(field),
 				Schema:      mapField,
 				Parent:      parent,
